@@ -665,6 +665,16 @@ def run(ctx):
     r07g(ctx)
     r07h(ctx)
     r07i(ctx)
+    # optimize_width trims the column declarations to the largest minimized_width: a row measured too short ends up wider than the columns (shared with C17)
+    from .c17 import r17i
+    r17i(ctx)
+    # the width and height the table reports are read from the position maps: an append that declares another run length than the item's repeat makes them
+    # disagree with the repeat attributes in the XML (R01f of C01; its companions R01g/R01h concern coordinates, not structure, and are dropped here)
+    from .c01 import r01fgh
+    r01fgh(ctx)
+    for rid in ("R01g", "R01h"):
+        ctx.rules.pop(rid, None)
+    ctx.findings[:] = [fd for fd in ctx.findings if fd.rule not in ("R01g", "R01h")]
     # width and height are read from the position maps: a map left obsolete by a public method makes the reported size disagree with the XML (rules shared with C02)
     from .c02 import r02ab
     r02ab(ctx, tom)
